@@ -707,7 +707,7 @@ static void convert_value_pair(ts_parser_state_t *tpsp,
 	break;
 
     case 'R':	/* RI */
-	*result = value_pair[0] + I * value_pair[1];
+	*result = CMPLX(value_pair[0], value_pair[1]);
 	break;
 
     default:
